@@ -11,7 +11,9 @@ import numpy as np
 from simdag.gen.expr import Bin, Call, Cmp, Const, IfX, Logic, Not, Pow, Sub, Var
 from simdag.gen.script import PhaseS, Script
 
-UT_TEMPS = ["k", "k2", "y2", "ytmp", "w", "K", "yy", "k_stage_value_for_the_second_half_step_of_y"]
+UT_TEMPS = ["k", "k2", "y2", "ytmp", "w", "K", "yy", "k_stage_value_for_the_second_half_step_of_y",
+            # names spelled like the temporaries that the Fortran pipeline makes up itself
+            "temp_old", "tmp0"]
 SC_TEMPS = ["s", "r", "q", "c", "S", "tt", "e", "scratch_scalar_for_the_error_estimate_of_the_step"]
 ARR_TEMPS = ["a", "b", "arr", "vec", "c2"]
 DYADIC = [0.5, 2.0, 1.5, -0.5, 0.25, -1.0, 3.0, -2.0]
@@ -243,7 +245,9 @@ class FortranGen:
                      0.8,                    # 20 user function returning (scalar, user type)
                      1.5 if ("<state>v" in self.types and "<state>r" in self.types) else 0,   # 21 one built-in, both user types
                      1.0 * c12,              # 22 read, rebind, read again
-                     1.0]                    # 23 temporary whose last use is a compound call argument
+                     1.0,                    # 23 temporary whose last use is a compound call argument
+                     1.0,                    # 24 a 17-digit constant against the same value computed at run time
+                     0.9]                    # 25 a statement with two loops whose order matters
                 k = t.weighted(w, "opkind")
                 op = self.gen_op(k, D, depth)
                 if op is None:
@@ -363,7 +367,7 @@ class FortranGen:
             D.discard(a)
             init_e = self.g_real(D, 1, counters=("i",))
             uts_ = self.of(D, "ut")
-            if uts_ and t.chance(0.3, "utinloop"):
+            if uts_ and t.chance(0.4, "utinloop"):
                 init_e = Bin("+", init_e, Bin("*", Var("i"), Call("<builtin>norm_2", [Var(self.pick(uts_, "lu"))])))
             out = [("call", (a,), Call("<builtin>array", [Const(n)]), self.mode()),
                    ("assign", a, Var("i"), init_e, [("i", Const(0), Const(n))], self.mode())]
@@ -521,6 +525,41 @@ class FortranGen:
                     kws.reverse()
                 return ("call", (tgt,), Call("<builtin>matmul", [Var(a), Var(a)], kws), self.mode())
             return ("call", (tgt,), Call("<builtin>matmul", [Var(a), Var(a), Const(c), Const(r)]), self.mode())
+        if k == 25:
+            # a loop-carried update that does not commute: the nest must run in the declared order (first loop
+            # outermost), and a triangular inner bound must see the outer variable
+            cands = [x for x in SC_TEMPS if self.cls.get(x, "exact") == "exact"]
+            h = self.new_name(cands, "real", D, reuse_p=0.0)
+            if h is None or h in D:
+                return None
+            self.cls[h] = "exact"
+            self.exact.add(h)
+            D.add(h)
+            n1, n2 = 2 + t.draw(2, "nl1"), 2 + t.draw(2, "nl2")
+            inner_hi = Bin("+", Var("i"), Const(1)) if t.chance(0.4, "nltri") else Const(n2)
+            body = Bin("-", Bin("+", Bin("*", Var(h), Const(2.0)), Var("i")), Bin("*", Const(2.0), Var("j")))
+            obs = "<state>r" if "<state>r" in self.types else "<state>n"
+            return [("assign", h, None, Const(1.0), [], self.mode()),
+                    ("assign", h, None, body, [("i", Const(0), Const(n1)), ("j", Const(0), inner_hi)], self.mode()),
+                    ("assign", obs, None, Bin("+", Var(obs), Var(h)), [], self.mode())]
+        if k == 24:
+            # a constant whose shortest representation needs 17 digits, compared with the same value computed
+            # at run time from short constants (IEEE arithmetic gives the very same double in both back ends)
+            cands = [x for x in SC_TEMPS if self.cls.get(x, "exact") == "exact"]
+            ca = self.new_name(cands, "real", D, reuse_p=0.0)
+            cb_ = self.new_name([x for x in cands if x != ca], "real", D, reuse_p=0.0)
+            if ca is None or cb_ is None or ca in D or cb_ in D:
+                return None
+            for x in (ca, cb_):
+                self.cls[x] = "exact"
+                self.exact.add(x)
+                D.add(x)
+            lit_, e_ = [(0.1 + 0.2, Bin("+", Const(0.1), Const(0.2))), (0.1 + 0.7, Bin("+", Const(0.1), Const(0.7))),
+                        (1.1 * 1.1, Bin("*", Const(1.1), Const(1.1)))][t.draw(3, "c17")]
+            op = self.pick(["==", ">=", "<="], "c17op")
+            bump = ("assign", "<state>n", None, Bin("+", Var("<state>n"), Const(1.0)), [], self.mode())
+            return [("assign", ca, None, Const(lit_), [], self.mode()), ("assign", cb_, None, e_, [], self.mode()),
+                    ("if", ("1", Cmp(op, Var(ca), Var(cb_)), self.mode()), [bump], None)]
         if k == 23:
             # a fresh user-type temporary whose only use is inside a compound argument of a call: its last use
             # is then a statement that the Fortran pipeline makes up (and names) itself
